@@ -275,7 +275,20 @@ def c09(rnd, budget):
             return i
         n = 60
         inp = CountingInput(n, fn, done)
-        out = Parallel(n_jobs=n_jobs, backend="threading", batch_size=batch_size, pre_dispatch=pre)(inp)
+        if cases % 2 == 0:
+            # the same instrumented input presented as a SIZED iterable (a lazy dataset with __len__): still consumed lazily
+            class Sized:
+                def __init__(self, it, n):
+                    self.it, self.n = it, n
+
+                def __len__(self):
+                    return self.n
+
+                def __iter__(self):
+                    return self.it
+            out = Parallel(n_jobs=n_jobs, backend="threading", batch_size=batch_size, pre_dispatch=pre)(Sized(inp, n))
+        else:
+            out = Parallel(n_jobs=n_jobs, backend="threading", batch_size=batch_size, pre_dispatch=pre)(inp)
         if out != list(range(n)):
             return dict(violation=True, cases=cases, what="wrong results", witness=dict(n_jobs=n_jobs, batch_size=batch_size, pre_dispatch=pre))
         if inp.concurrent:
@@ -284,7 +297,7 @@ def c09(rnd, budget):
             amount = int(eval(str(pre).replace("n_jobs", str(n_jobs)))) if isinstance(pre, str) else pre
             bound = amount * batch_size + n_jobs * batch_size + batch_size * n_jobs  # in flight + one look-ahead slice (+ slack of one slice)
             if inp.max_lead > bound:
-                return dict(violation=True, cases=cases, what="%d items taken ahead of completion, bound %d" % (inp.max_lead, bound), witness=dict(n_jobs=n_jobs, batch_size=batch_size, pre_dispatch=pre))
+                return dict(violation=True, cases=cases, what="%d items taken ahead of completion, bound %d" % (inp.max_lead, bound), witness=dict(n_jobs=n_jobs, batch_size=batch_size, pre_dispatch=pre, sized_input=cases % 2 == 0))
     # after a failure no further items are taken (quiescent check: the count must stop growing)
     for bad in (5, 12):
         cases += 1
